@@ -200,6 +200,32 @@ def run(ctx):
         ctx.ob('R03.3', 'Drop for the users guard performs users -= 1 exactly once', ok, ctx.where(d), '%d fetch_sub calls' % len(subs), construct='users-guard-closure')
     check_unready_drop(ctx, r, 'R03.3')
 
+    # ---- R03.10 the abandonment path honours a shrink that happened meanwhile ----------------------------------
+    # `size -= 1` on behalf of a caller that still holds its permit: if the pool was shrunk while the call was in
+    # flight (size > max_size), the object being discarded is the surplus one and its permit must be withheld, as
+    # the return / take helpers do; releasing it leaves one permit too many (not "as if the call had never been made").
+    # The rule is tied to the present design (debt kept implicitly as size > max_size and paid by the helpers' surplus
+    # test, getter holding a bare tokio permit); under another design (explicit debt counter, permit wrapped in a pool
+    # guard) it does not apply and says so.
+    ud = r.UNREADY_DROP
+    uan = prog.an(ud)
+    helpers_compare = any(cmp_relation(prog.an(h), r, blk, lab) for h in r.RETURN + r.TAKE for blk in h.blocks
+                          if blk.term.kind == 'switch' and blk.term.j.get('dty') == 'bool' for lab in ('true', 'false'))
+    bare_permit = any(adt_of(l['ty']) == PERMIT_ADT for l in root.locals)
+    slot_ints = [f for f in (prog.crates['deadpool'].adt(r.SLOTS) or {'variants': [{'fields': []}]})['variants'][0]['fields'] if f['ty'] in ('usize', 'isize', 'u32', 'i32', 'u64', 'i64')]
+    applies = helpers_compare and bare_permit and len(slot_ints) <= 2
+    if not applies:
+        ctx.note('R03.10 (abandonment honours a shrink) not applicable: the shrink debt is not kept as size > max_size here (helpers compare: %s, bare permit: %s, integer fields of the slots: %d)' % (helpers_compare, bare_permit, len(slot_ints)))
+    for bb, i, s in (r.field_writes(ud, r.SLOTS, r.SIZE) if applies else []):
+        if classify_write(uan, s)[0] != '-=':
+            continue
+        tested = any(cmp_relation(uan, r, blk, lab) for blk in ud.blocks if blk.term.kind == 'switch' and blk.term.j.get('dty') == 'bool' for lab in ('true', 'false'))
+        ctx.ob('R03.10', 'the object discarded by an abandoned get() is tested for being surplus (size > max_size) before its permit goes back', tested, ctx.where(ud, s.line),
+               'UnreadyObject::drop gives the size slot back without comparing size and max_size: after a shrink that overlapped the call the '
+               'permit of the abandoned get() is released although the shrink still owed one (max_size 2, A out, B idle, get() parked in recycle(B), '
+               'resize(1), get() dropped, A returned: two objects at once with max_size 1)' if not tested else '',
+               construct='abandon:shrink-debt-ignored')
+
     # ---- R03.9 an abandoned or panicking get() leaves all three books balanced (effect ledger) ----------------
     from .ledger_rules import ledger_obligations
     getters = {b.path for b in ctx.prog.bodies.values() if b.is_coroutine and b.path in set(r.GETTER) | {r.TIMEOUT_GET.path}}
